@@ -365,6 +365,23 @@ def check_open(mir_text, src, label, entry, readonly):
                 if not good:
                     v_r1.append({"write": w["func"], "args": [repr(a_)[:80] for a_ in w["args"]],
                                  "why": "store into the mapping of an existing file that is not `write_bytes(ptr + allocated, 0, len - allocated)` under `len > allocated`"})
+        # ---- R4: the read-only open forces the file-open flags before Options::open: whatever flags the caller left in
+        # the Options (write, append, truncate, create, create_new) must not reach OpenOptions ----
+        if readonly:
+            fn_names = [x["func"] for x in effs]
+            opens = [i for i, n in enumerate(fn_names) if "::open" in n and "Options" in n]
+            need = {"with_create": False, "with_create_new": False, "with_read": True, "with_write": False, "with_append": False, "with_truncate": False}
+            for nm, val in need.items():
+                hit = False
+                for i, x in enumerate(effs):
+                    if x["func"].split("::")[-1] == nm and "Options" in x["func"] and len(x["args"]) == 2 and opens and i < opens[0]:
+                        a1 = x["args"][1]
+                        if isinstance(a1, bool):
+                            a1 = z3.BoolVal(a1)
+                        if isinstance(a1, z3.BoolRef) and z3.is_true(z3.simplify(a1 == z3.BoolVal(val))):
+                            hit = True
+                if not hit:
+                    v_r3.append({"field": "open flags", "why": "the read-only open does not force %s(%s) before opening the file: a flag left in the caller's Options (write / append / truncate / create) reaches OpenOptions" % (nm, str(val).lower())})
         # ---- R4: a read-only open never accepts a file that is too small to contain the header prefix ----
         if readonly and sizes:
             offv = opt_field(prog, opts, "offset")
